@@ -31,12 +31,42 @@ pub fn const_value_j<'tcx>(tcx: TyCtxt<'tcx>, cv: ConstValue, ty: Ty<'tcx>) -> J
                 J::Null
             }
         }
-        ConstValue::Indirect { .. } => J::Null,
+        ConstValue::Indirect { alloc_id, offset } => {
+            // small plain-old-data constants (e.g. TinyAsciiStr<N>): export the raw bytes
+            let is_tiny = ty.to_string().starts_with("tinystr::ascii::TinyAsciiStr<");
+            if !is_tiny {
+                return J::Null;
+            }
+            match tcx.try_get_global_alloc(alloc_id) {
+                Some(mir::interpret::GlobalAlloc::Memory(a)) => {
+                    let a = a.inner();
+                    let start = offset.bytes() as usize;
+                    let n = ty_size_hint(&ty.to_string());
+                    if n == 0 || start + n > a.len() {
+                        return J::Null;
+                    }
+                    let bytes = a.inspect_with_uninit_and_ptr_outside_interpreter(start..start + n);
+                    let st: String = bytes.iter().take_while(|b| **b != 0).map(|b| *b as char).collect();
+                    J::O(vec![("tinystr", s(st))])
+                }
+                _ => J::Null,
+            }
+        }
     }
+}
+
+fn ty_size_hint(ty: &str) -> usize {
+    // TinyAsciiStr<N> is N bytes
+    ty.rsplit('<').next().and_then(|x| x.trim_end_matches('>').parse::<usize>().ok()).unwrap_or(0)
 }
 
 fn scalar_int_j<'tcx>(_tcx: TyCtxt<'tcx>, si: ty::ScalarInt, ty: Ty<'tcx>) -> J {
     let size = si.size();
+    if ty.to_string().starts_with("tinystr::ascii::TinyAsciiStr<") {
+        let bits = si.to_bits(size);
+        let st: String = bits.to_le_bytes().iter().take(size.bytes() as usize).take_while(|b| **b != 0).map(|b| *b as char).collect();
+        return J::O(vec![("tinystr", s(st))]);
+    }
     match ty.kind() {
         ty::Bool => J::Bool(si.to_bits(size) != 0),
         ty::Int(_) => J::I(si.to_int(size)),
